@@ -36,6 +36,9 @@ type compiler struct {
 	inCheck bool
 	// exec stands for the execution (Template.Exec) this evaluator is part of
 	exec *execution
+	// depth counts the blocks, function calls and partials this evaluator
+	// is nested in, see maxCallDepth
+	depth int
 	// writing counts the values being written inside each other
 	writing int
 	// pending is a break or continue that the block of a helper called by
@@ -44,28 +47,22 @@ type compiler struct {
 	pending exitBlockStatment
 }
 
-// execution is the identity of one Template.Exec. It counts how deep the
-// blocks and template functions that are running in it are nested.
-type execution struct{ depth atomic.Int32 }
+// execution is the identity of one Template.Exec.
+type execution struct{ _ byte }
 
-// maxCallDepth is how deep blocks of helpers and calls of template functions
-// may be nested while a template runs (the parser has the same limit for what
-// is written down).
-const maxCallDepth = 10000
-
-func (e *execution) enter() (leave func(), err error) {
-	if e == nil {
-		return func() {}, nil
-	}
-	if e.depth.Add(1) > maxCallDepth {
-		e.depth.Add(-1)
-		return nil, fmt.Errorf("blocks and function calls nested more than %d deep", maxCallDepth)
-	}
-	return func() { e.depth.Add(-1) }, nil
-}
+// maxCallDepth is how deep the blocks of helpers, the calls of template
+// functions and the partials of one rendering may be nested while it runs.
+// Each evaluator knows its own depth (a block that is replayed counts from
+// the call that replays it), so executions that share a stored block do not
+// count against each other.
+const maxCallDepth = 1000
 
 // maxWriteDepth is how deep the values that are written may be nested.
 const maxWriteDepth = 100000
+
+func tooDeep() error {
+	return fmt.Errorf("blocks, function calls and partials nested more than %d deep", maxCallDepth)
+}
 
 // blockSignal is how the block of one helper call tells that call's
 // evaluator about a break or continue. Every call has its own: a stored
@@ -317,11 +314,11 @@ func (c *compiler) evalUserFunction(node *userFunction, args []ast.Expression) (
 		vals[i] = v
 	}
 
-	leave, err := c.exec.enter()
-	if err != nil {
-		return nil, err
+	if c.depth >= maxCallDepth {
+		return nil, tooDeep()
 	}
-	defer leave()
+	c.depth++
+	defer func() { c.depth-- }()
 
 	octx := c.ctx
 	defer func() { c.ctx = octx }()
@@ -1148,6 +1145,7 @@ func (c *compiler) evalCallExpression(node *ast.CallExpression) (interface{}, er
 					compiler: c,
 					block:    node.Block,
 					signal:   signal,
+					depth:    c.depth,
 				}
 				harg := reflect.ValueOf(hargs)
 				if arg.Kind() == reflect.Ptr && reflect.PtrTo(harg.Type()).AssignableTo(arg) {
